@@ -61,6 +61,7 @@ BIOGEME_ENTRIES = ('biogeme_expr', 'biogeme_dict', 'biogeme_dict_weight', 'bioge
 # BIOGEME.simulate; biogeme_weight_formula: the formula is the WEIGHT formula of a model whose log likelihood is valid
 ROW_ENTRIES = ('get_value_c', 'get_value_and_derivatives', 'biogeme_simulate')
 EXPR_ENTRIES = ('get_value_c', 'get_value_and_derivatives')
+NODB_ENTRIES = ('get_value_c_without_database', 'get_value_and_derivatives_without_database')
 
 # fillers without data variables (so that the planted element is the only fault)
 NOVAR = {
@@ -169,6 +170,11 @@ def enter(entry, term, panel=False, rows=None, db=None):
     elif entry == 'biogeme_weight_formula':
         ll = R.Builder(spec()).build(LL_FOR_WEIGHT_PANEL if panel else LL_FOR_WEIGHT)
         b = make_biogeme(db, {'log_like': ll, 'weight': expr}, number_of_draws=4)
+    elif entry == 'get_value_c_without_database':
+        return [float(v) for v in np.atleast_1d(expr.get_value_c(number_of_draws=4, prepare_ids=True))]
+    elif entry == 'get_value_and_derivatives_without_database':
+        out = expr.get_value_and_derivatives(number_of_draws=4, gradient=False, hessian=False, bhhh=False, prepare_ids=True)
+        return [float(out.function)]
     elif entry == 'get_value_c':
         return [float(v) for v in np.atleast_1d(expr.get_value_c(database=db, number_of_draws=4, prepare_ids=True))]
     elif entry == 'get_value_and_derivatives':
@@ -208,6 +214,7 @@ def tasks(tier, seed):
         t.append(dict(part='valid', lo=i, hi=min(i + 8, len(st)), tier=tier))
     # (b) structural faults
     t.append(dict(part='structural'))
+    t.append(dict(part='structural_nodb', fresh=True))
     # (b') a table that became empty after the Database was made (every row removed): every entry form, one fresh process
     # each (the pre-built engine may take the process down)
     for entry in BIOGEME_ENTRIES + EXPR_ENTRIES:
@@ -248,6 +255,8 @@ def run_task(task):
         _valid(task, rec)
     elif part == 'structural':
         _structural(rec)
+    elif part == 'structural_nodb':
+        _structural_nodb(rec)
     elif part == 'valid_data':
         _valid_data(task, rec)
     elif part == 'emptied':
@@ -316,6 +325,14 @@ def _judge(rec, fault, entry, p, s, wrapper, term, panel, case):
     raise StopTask()
 
 
+def _has_variables(term):
+    from biogeme.expressions.elementary_types import TypeOfElementaryExpression as T
+    try:
+        return bool(R.Builder(spec()).build(term).set_of_elementary_expression(T.VARIABLE))
+    except Exception:
+        return True
+
+
 def _plant(task, rec):
     fault, tier = task['fault'], task['tier']
     st = list(sites())
@@ -337,6 +354,16 @@ def _plant(task, rec):
             entries = list(BIOGEME_ENTRIES)
             if fault in REFERENCE_FAULTS:
                 entries += list(EXPR_ENTRIES)
+            # the reference faults that need no data column, on formulas without any data variable, evaluated WITHOUT a database
+            if fault in REFERENCE_FAULTS and fault != 'name-for-two-kinds' and not panel:   # (without a table no name is a column)
+                try:
+                    term_nv = build_faulty(p, s, fault, wrapper, novar=True)
+                except Exception:
+                    term_nv = None
+                if term_nv is not None and not _has_variables(term_nv):
+                    for entry in NODB_ENTRIES:
+                        case = dict(part='plant', fault=fault, p=p, s=s, wrapper=list(wrapper) if wrapper else None, entry=entry, tier=tier)
+                        _judge(rec, fault, entry, p, s, wrapper, term_nv, False, case)
             for entry in entries:
                 case = dict(part='plant', fault=fault, p=p, s=s, wrapper=list(wrapper) if wrapper else None, entry=entry, tier=tier)
                 # as a weight formula on panel data the faulty part stands alone (a trajectory has no place in a weight)
@@ -742,6 +769,45 @@ def _structural(rec):
     rec.sample(dict(part='structural', faults=list(cases)))
 
 
+def _structural_nodb(rec):
+    """Formulas without any data variable, evaluated without a database: a constant choice that is not an alternative."""
+    import biogeme.expressions as ex
+    from biogeme import models
+    from vf.engine import is_engine_error
+
+    def Vc():
+        return {1: ex.Beta('b1', 0.5, None, None, 0), 2: ex.Numeric(0.25), 3: ex.Beta('b2', -0.5, None, None, 0) * 2.0}
+    nodb = {
+        'choice-outside-utilities': lambda ch: models.loglogit(Vc(), {1: 1, 2: 1, 3: 1}, ch),
+        'choice-outside-utilities:full-choice-set': lambda ch: models.loglogit(Vc(), None, ch),
+        'choice-outside-utilities:probability': lambda ch: models.logit(Vc(), {1: 1, 2: 1, 3: 1}, ch),
+    }
+    for name, mk in nodb.items():
+        for ch in (7, 0, -1, 4):
+            for form in ('numeric', 'beta', 'number'):
+                choice = ex.Numeric(ch) if form == 'numeric' else (ex.Beta('chosen', ch, None, None, 1) if form == 'beta' else ch)
+                for entry, call in (('get_value', lambda e: e.get_value()),
+                                    ('get_value_c', lambda e: e.get_value_c(prepare_ids=True)),
+                                    ('get_value_and_derivatives', lambda e: e.get_value_and_derivatives(gradient=False, hessian=False, bhhh=False,
+                                                                                                        prepare_ids=True).function)):
+                    nviol = len(rec.violations)
+                    _expect_refusal(rec, f'{name}:without-database:choice={form}', entry, lambda mk=mk, choice=choice, call=call: call(mk(choice)))
+                    if len(rec.violations) > nviol and 'RuntimeError' in rec.violations[-1]['key']:
+                        rec.count('structural_nodb_cut_short_after_engine_error')
+                        return                       # the engine's error is sticky in this process
+    # valid counterparts
+    for ch in (1, 2, 3):
+        for name, mk in nodb.items():
+            try:
+                v = float(mk(ex.Numeric(ch)).get_value_c(prepare_ids=True))
+                rec.case(None, ('structural-nodb-valid', name, ch, round(v, 9)), outcome='accepted')
+            except Exception as e:
+                rec.violation(f'C12|valid-specification-rejected-{type(e).__name__}|structural:{name}:without-database', f'choice {ch}: {str(e)[:160]}',
+                              dict(part='structural_nodb'))
+                if is_engine_error(e):
+                    return
+
+
 def _expect_refusal(rec, name, entry, fn):
     case = dict(part='structural', name=name, entry=entry)
     try:
@@ -905,7 +971,7 @@ def replay(case):
     if part == 'plant':
         wrapper = tuple(case['wrapper']) if case.get('wrapper') else None
         panel = case['fault'] == 'panel-variable-outside-trajectory'
-        term = build_faulty(case['p'], case['s'], case['fault'], wrapper, novar=panel)
+        term = build_faulty(case['p'], case['s'], case['fault'], wrapper, novar=panel or case['entry'] in NODB_ENTRIES)
         if panel and case['entry'] != 'biogeme_weight_formula':
             term = ('*', ('traj', ('exp', ('*', ('beta', 'b_z'), ('var', 'x2')))), term)
         try:
@@ -916,6 +982,8 @@ def replay(case):
         _plant_engine(case, rec)
     elif part == 'valid_data':
         _valid_data(case, rec)
+    elif part == 'structural_nodb':
+        _structural_nodb(rec)
     elif part == 'emptied':
         # replayed in a child process: the engine may abort
         import multiprocessing as mp
